@@ -11,6 +11,15 @@ ASSUMPTIONS = [
     "registry tie (object identity, by `decide`) and by paired real runs",
     "binary on new frames: the statement's prediction clause is D14 (binary is not stateful), recorded "
     "under C06; here binary is judged at training time and for refusal of an absent success value",
+    "every frame (quick tier: every second frame) is judged twice: with a clean namespace, and with the helper / alias / encoding names "
+    "of the registry (TRANSFORMS + ENCODINGS) bound to unrelated objects (numbers, arrays, strings, "
+    "user functions of the same name) in extra_namespace, in the locals or in the globals of the "
+    "function that calls design_matrices; the expected columns never depend on those bindings",
+    "formula-level synonymy: a formula with two calls of one helper that differ only in a keyword "
+    "value (binary success=, T ref=, S omit=) is built in every helper/alias spelling of the two "
+    "calls; all spellings must give the same design (training and new frame), the design must have "
+    "one term per call, and binary columns are judged by Spec.C16.binaryExpected, Treatment-coded "
+    "columns by Spec.C04.decodeLabel (driver op c04_spec)",
 ]
 TRUSTED = ["numpy broadcasting of constants (np.ones * c)"]
 
@@ -26,38 +35,170 @@ def lv(values):
         for v in values]
 
 
-def explore(tier, seed, res=None, replay=None):
+# ------------------------------------------------------------------------------------------------
+# shadowing: the registry names bound to unrelated objects in the scopes the formula can see
+# ------------------------------------------------------------------------------------------------
+def _sevens(*a, **k):
+    """a user function that happens to have a helper's name: a column of sevens"""
+    first = a[0] if a else next(iter(k.values()))
+    return np.full(len(first), 7.0)
+
+
+def _unit_interval(values, *a, **k):
+    """the user's own idea of `scale`: to the unit interval"""
+    v = np.asarray(values, dtype=float)
+    return (v - v.min() + 1.0) / (v.max() - v.min() + 2.0)
+
+
+def _shift(values, *a, **k):
+    return np.asarray(values, dtype=float) + 1.0
+
+
+class _UserClass:
+    def __init__(self, *a, **k):
+        pass
+
+
+SHADOW_OBJECTS = [
+    ("float 0.05", lambda n: 0.05), ("float 300.0", lambda n: 300.0), ("int 2000", lambda n: 2000),
+    ("int n_rows", lambda n: n), ("np.eye(2)", lambda n: np.eye(2)), ("str 'label'", lambda n: "label"),
+    ("None", lambda n: None), ("list", lambda n: [1, 2, 3]), ("np.arange(n_rows)", lambda n: np.arange(n)),
+    ("function -> sevens", lambda n: _sevens), ("function -> unit interval", lambda n: _unit_interval),
+    ("function -> values + 1", lambda n: _shift), ("user class", lambda n: _UserClass),
+    ("np.log", lambda n: np.log),
+]
+
+
+def registry_names():
+    from formulae.transforms import TRANSFORMS
+    from formulae.categorical import ENCODINGS
+    return sorted(set(TRANSFORMS) | set(ENCODINGS))
+
+
+def gen_shadow(r, n_rows):
+    """-> (mode, {name: description}, {name: object}); at least one name is bound"""
+    names = registry_names()
+    picked = [nm for nm in names if r.random() < 0.6] or [r.choice(names)]
+    desc, objs = {}, {}
+    for nm in picked:
+        d, mk = r.choice(SHADOW_OBJECTS)
+        desc[nm], objs[nm] = d, mk(n_rows)
+    return r.choice(["extra_namespace", "caller_locals", "caller_globals"]), desc, objs
+
+
+def make_builder(mode, objs, ns):
+    """design_matrices as seen from a calling scope that binds `objs` (mode = where)"""
     import formulae
+    if mode is None:
+        return lambda formula, data: formulae.design_matrices(formula, data, extra_namespace=ns)
+    if mode == "extra_namespace":
+        full = dict(ns)
+        full.update(objs)
+        return lambda formula, data: formulae.design_matrices(formula, data, extra_namespace=full)
+    names = sorted(objs)
+    if mode == "caller_locals":
+        src = "def caller(_dm_, _formula_, _data_, _ns_, _vals_):\n"
+        for i, nm in enumerate(names):
+            src += f"    {nm} = _vals_[{i}]\n"
+        src += "    return _dm_(_formula_, _data_, extra_namespace=_ns_)\n"
+        glob = {}
+    else:
+        src = ("def caller(_dm_, _formula_, _data_, _ns_, _vals_):\n"
+               "    return _dm_(_formula_, _data_, extra_namespace=_ns_)\n")
+        glob = dict(objs)
+    exec(src, glob)
+    caller = glob["caller"]
+    vals = [objs[nm] for nm in names]
+    return lambda formula, data: caller(formulae.design_matrices, formula, data, ns, vals)
+
+
+def lit(v):
+    return repr(v) if isinstance(v, str) else str(v)
+
+
+# formula contexts in which two calls A, B of one helper meet -> names of the terms (besides the
+# intercept) of the part of the design the calls land in
+CONTEXT_TERMS = {
+    "0 + {A} + {B}": lambda A, B: [A, B],
+    "{A} + {B}": lambda A, B: [A, B],
+    "{B} + {A}": lambda A, B: [A, B],
+    "{A} + x + {B}": lambda A, B: [A, "x", B],
+    "x + {A} + {B}": lambda A, B: ["x", A, B],
+    "{A}:x + {B}:x": lambda A, B: [A + ":x", B + ":x"],
+    "{A} + {B} + {A}:{B}": lambda A, B: [A, B, A + ":" + B],
+    "({A} | g) + ({B} | g)": lambda A, B: ["1|g", A + "|g", B + "|g"],
+}
+
+
+def design_views(dm, nd):
+    """What must coincide between synonymous spellings: matrices (training, new frame), widths."""
+    out = {}
+    for part in ("common", "group"):
+        obj = getattr(dm, part)
+        if obj is None:
+            out[part] = None
+            continue
+        v = {"matrix": np.asarray(obj.design_matrix, float).tolist(),
+             "widths": [sl.stop - sl.start for sl in obj.slices.values()]}
+        try:
+            v["new"] = np.asarray(obj.evaluate_new_data(nd).design_matrix, float).tolist()
+        except Exception as e:  # noqa
+            v["new"] = type(e).__name__
+        out[part] = v
+    return out
+
+
+def explore(tier, seed, res=None, replay=None):
     res = res or Result()
     res.rule = ("generated frames x success values (present, absent, omitted; numeric and string) x "
                 "offsets (column, constant, call) x trial specifications (column, constant; valid and "
-                "invalid), at training time and on new frames; alias pairs; non-trivial = every case "
-                "except the trivial I(x); distinct by (helper, arguments, frame seed)")
+                "invalid), at training time and on new frames; alias pairs; formulas with two calls of "
+                "one helper differing in a keyword value, in every helper/alias spelling; each frame "
+                "with a clean namespace and with the registry names bound to unrelated objects in "
+                "extra_namespace / the caller's locals / the caller's globals; non-trivial = every "
+                "case except the trivial I(x); distinct by (helper, arguments, frame seed, scope)")
     n_frames = 60 if tier == "quick" else 1600
     reqs, owners = [], []
 
-    def add(req, case):
+    def add(req, case, why=None):
         reqs.append(req)
-        owners.append(case)
+        owners.append((case, why))
         res.nontrivial.add(tuple(sorted((k, str(v)) for k, v in case.items())))
 
     ns = designs.namespace()
-    for fi in range(n_frames):
-        r = rng_for(seed, "c16", fi)
-        df = designs.gen_frame(r)
-        nd = df.iloc[[r.randrange(len(df)) for _ in range(r.randrange(2, 7))]].reset_index(drop=True)
-        nd["z"] = [r.randrange(-8, 9) / 4 for _ in range(len(nd))]
-        nd["n"] = [r.randrange(3, 12) for _ in range(len(nd))]
-        nd["nbig"] = nd["n"] + 250
+    frames = range(n_frames)
+    if replay is not None and "seed_path" in replay:
+        frames = [replay["seed_path"]]
+    for fi in frames:
+      r = rng_for(seed, "c16", fi)
+      df = designs.gen_frame(r)
+      nd = df.iloc[[r.randrange(len(df)) for _ in range(r.randrange(2, 7))]].reset_index(drop=True)
+      nd["z"] = [r.randrange(-8, 9) / 4 for _ in range(len(nd))]
+      nd["n"] = [r.randrange(3, 12) for _ in range(len(nd))]
+      nd["nbig"] = nd["n"] + 250
+      mode, shadow_desc, shadow_objs = gen_shadow(rng_for(seed, "c16", "shadow", fi), len(df))
+      # quick tier: the shadowed pass on every second frame (all frames when replaying / thorough)
+      shadowed = tier != "quick" or replay is not None or (fi + seed) % 2 == 0
+      for scope in (None, {"where": mode, "bound": shadow_desc}) if shadowed else (None,):
+        build = make_builder(None if scope is None else mode, shadow_objs, ns)
+        r2 = rng_for(seed, "c16", "double", fi)      # the same double-call formulas in both scopes
+
+        def mk(helper, **kw):
+            c = {"helper": helper, "seed_path": fi}
+            if scope is not None:
+                c["scope"] = scope
+            c.update(kw)
+            return c
+        res.count("scope:" + ("clean" if scope is None else mode))
         # ---- binary ------------------------------------------------------------------------------
         for var, succ in (("k", None), ("k", 2), ("k", 7), ("h", "'q'"), ("h", "'zz'"), ("f", None),
                           ("k", 1), ("co", None), ("cu", None), ("kz", 0), ("kz", None), ("co", "'mid'")):
             for fn in ("binary", "B"):
                 res.evaluations += 1
                 arg = f"{fn}({var})" if succ is None else f"{fn}({var}, {succ})"
-                case = {"helper": arg, "seed_path": fi}
+                case = mk(arg)
                 try:
-                    dm = formulae.design_matrices(f"y ~ {arg}", df, extra_namespace=ns)
+                    dm = build(f"y ~ {arg}", df)
                     column, err = [designs.frac(v) for v in col(dm, arg)], None
                 except Exception as e:  # noqa
                     column, err = None, type(e).__name__
@@ -75,9 +216,9 @@ def explore(tier, seed, res=None, replay=None):
                 ("I(x)", df["x"].tolist(), nd["x"].tolist()),
                 ("{x * z}", (df["x"] * df["z"]).tolist(), (nd["x"] * nd["z"]).tolist())):
             res.evaluations += 1
-            case = {"helper": arg, "seed_path": fi}
+            case = mk(arg)
             try:
-                dm = formulae.design_matrices(f"y ~ f + {arg}", df, extra_namespace=ns)
+                dm = build(f"y ~ f + {arg}", df)
                 name = arg if not arg.startswith("{") else "I(" + arg[1:-1] + ")"
                 c0 = [designs.frac(v) for v in col(dm, name)]
                 new = dm.common.evaluate_new_data(nd)
@@ -102,10 +243,10 @@ def explore(tier, seed, res=None, replay=None):
                                  ("s8", 300), ("s8", "nbig")):
                 res.evaluations += 1
                 arg = f"{fn}({sname}, {tname})"
-                case = {"helper": arg, "seed_path": fi}
+                case = mk(arg)
                 trials = bad[tname].tolist() if isinstance(tname, str) else [tname] * len(bad)
                 try:
-                    dm = formulae.design_matrices(f"{arg} ~ x", bad, extra_namespace=ns)
+                    dm = build(f"{arg} ~ x", bad)
                     m = np.asarray(dm.response.design_matrix, dtype=float)
                     acc, err = True, ""
                     c0 = [designs.frac(v) for v in m[:, 0]]
@@ -133,10 +274,10 @@ def explore(tier, seed, res=None, replay=None):
                      ("S(kz, 0)", "C(kz, Sum(0))"), ("T(kz, 0)", "C(kz, Treatment(0))"),
                      ("S(kz, -1)", "C(kz, Sum(-1))"), ("T(kz, 1)", "C(kz, Treatment(1))")):
             res.evaluations += 1
-            case = {"helper": f"{a} vs {b}", "seed_path": fi}
+            case = mk(f"{a} vs {b}")
             try:
-                d1 = formulae.design_matrices(f"y ~ {a}", df, extra_namespace=ns).common
-                d2 = formulae.design_matrices(f"y ~ {b}", df, extra_namespace=ns).common
+                d1 = build(f"y ~ {a}", df).common
+                d2 = build(f"y ~ {b}", df).common
                 m1, m2 = d1.design_matrix, d2.design_matrix
                 if not np.array_equal(np.asarray(m1, float), np.asarray(m2, float)):
                     res.failures.append({"case": case, "impl": "designs differ", "expected": "identical",
@@ -151,14 +292,92 @@ def explore(tier, seed, res=None, replay=None):
                     res.failures.append({"case": dict(case, when="prediction"), "impl": "designs differ",
                                          "expected": "identical", "finding": None,
                                          "why": f"aliases {a} and {b} give different designs on new data"})
-                res.nontrivial.add((a, b, fi))
+                res.nontrivial.add((a, b, fi, str(scope)))
             except Exception as e:  # noqa
                 res.failures.append({"case": case, "impl": type(e).__name__, "expected": "identical",
                                      "finding": None, "why": f"alias pair raised {type(e).__name__}"})
+        # ---- two calls of one helper that differ only in a keyword value ---------------------------
+        # every helper/alias spelling of the two calls must give one and the same design, with one
+        # term per call, each column holding its pointwise meaning
+        doubles = []
+        # (quick tier: in the clean scope only, one binary pair; thorough: both scopes, two pairs)
+        for _ in range((1 if tier == "quick" else 2) if (scope is None or tier != "quick") else 0):
+            var = r2.choice(["k", "kz", "h", "f", "g", "co", "cu"])
+            s1, s2 = r2.sample(sorted(set(df[var].tolist()), key=str), 2)
+            doubles.append(("binary", var, s1, s2,
+                            [lambda v, s: f"binary({v}, success={lit(s)})", lambda v, s: f"B({v}, success={lit(s)})"],
+                            r2.choice(["0 + {A} + {B}", "{A} + {B}", "{A} + x + {B}", "{B} + {A}",
+                                       "{A}:x + {B}:x", "({A} | g) + ({B} | g)", "{A} + {B} + {A}:{B}"]
+                                      if var != "g" else ["0 + {A} + {B}", "{A} + {B}"])))
+        for fam, kwname, enc in (("T", "ref", "Treatment"), ("S", "omit", "Sum")):
+            if scope is not None and tier == "quick":
+                break
+            var = r2.choice(["f", "g", "h", "k", "kz", "cu", "co"])
+            s1, s2 = r2.sample(sorted(set(df[var].tolist()), key=str), 2)
+            doubles.append((fam, var, s1, s2,
+                            [lambda v, s, fam=fam, kwname=kwname: f"{fam}({v}, {kwname}={lit(s)})",
+                             lambda v, s, enc=enc: f"C({v}, {enc}({lit(s)}))"],
+                            r2.choice(["{A} + {B}", "0 + {A} + {B}", "x + {A} + {B}", "{A}:x + {B}:x",
+                                       "{B} + {A}"])))
+        for fam, var, s1, s2, spellings, ctx in doubles:
+            views = []
+            for sa in spellings:
+                for sb in spellings:
+                    res.evaluations += 1
+                    A, B = sa(var, s1), sb(var, s2)
+                    formula = "y ~ " + ctx.format(A=A, B=B)
+                    case = mk(f"{fam} twice", formula=formula)
+                    try:
+                        dm = build(formula, df)
+                    except Exception as e:  # noqa
+                        res.failures.append({"case": case, "impl": type(e).__name__, "finding": None,
+                                             "expected": "a design with one term per call",
+                                             "why": f"{formula} raised {type(e).__name__}"})
+                        continue
+                    views.append((formula, design_views(dm, nd)))
+                    # one term per call, under the names the calls spell
+                    part = dm.group if "|" in ctx else dm.common
+                    names = [] if part is None else [t for t in part.terms if t != "Intercept"]
+                    want = CONTEXT_TERMS[ctx](A, B)
+                    if sorted(names) != sorted(want):
+                        res.failures.append({"case": case, "impl": {"terms": names}, "finding": None,
+                                             "expected": {"terms": want},
+                                             "why": "the design does not have one term per helper call"})
+                        continue
+                    if dm.common is not None:
+                        terms = list(dm.common.terms.values())
+                        add({"op": "c04_spec", "formula": formula,
+                             "frame": designs.frame_json(designs.dm_frame(dm, df)),
+                             "names": designs.names_json(designs.NAMES),
+                             "parts": [{"labels": designs._labels(terms),
+                                        "matrix": designs.mat(dm.common.design_matrix)}]},
+                            dict(case, check="columns hold what their labels say"))
+                    if fam == "binary" and ":" not in ctx and "|" not in ctx:
+                        for call, sv in ((A, s1), (B, s2)):
+                            add({"op": "c16_binary", "x": lv(df[var].tolist()),
+                                 "success": sv if not isinstance(sv, str) else sv,
+                                 "column": [designs.frac(v) for v in col(dm, call)], "err": ""},
+                                dict(case, column=call))
+            for formula, v in views[1:]:
+                if v != views[0][1]:
+                    res.failures.append({
+                        "case": mk(f"{fam} twice", formula=formula, versus=views[0][0]),
+                        "impl": "designs differ", "expected": "identical", "finding": None,
+                        "why": "helper and alias spellings of the same two calls give different designs"})
+            res.nontrivial.add((fam, var, str(s1), str(s2), ctx, fi, str(scope)))
         if len(res.samples) < 4:
-            res.samples.append({"frame_seed": fi, "helpers": ["binary(k, 2)", "offset(3)", "p(s, n)"]})
-    for case, sp in zip(owners, ask(reqs)):
+            res.samples.append({"frame_seed": fi, "helpers": ["binary(k, 2)", "offset(3)", "p(s, n)"],
+                                "scope": scope})
+    for (case, why), sp in zip(owners, ask(reqs)):
         res.traces += 1
+        if "parts" in sp or "err" in sp:          # c04_spec
+            bad_parts = [v for v in sp.get("parts", []) if "err" not in v and not v["ok"]]
+            if bad_parts:
+                res.failures.append({"case": case, "impl": bad_parts[0], "expected": "Spec.C04.decodeLabel",
+                                     "finding": None,
+                                     "why": f"column labelled {bad_parts[0]['first_bad']!r} does not hold "
+                                            "what the label says"})
+            continue
         if not sp.get("holds"):
             res.failures.append({"case": case, "impl": sp, "expected": "Spec.C16", "finding": None,
                                  "why": f"{case['helper']}: pointwise meaning violated "
